@@ -19,6 +19,9 @@ TNext ==
           /\ phase' = PhaseAfter(ncpVer, phase, e.fmt, e.id, e.desired)
           /\ phase' \in {"fresh", "queried", "native"}          \* FirstQueryLegacy / Confirmed / FramedForVersion
           /\ UNCHANGED <<ncpVer, bad, rs>>
+       \* the NCP missed the host's RST altogether (boot = "deaf"): that start-up ends in the reset timeout - nothing was reset
+       \/ /\ e.a = "result" /\ e.stage = "startup" /\ e.exc = "TimeoutError" /\ Tr[1].boot = "deaf" /\ rs = 0
+          /\ UNCHANGED <<ncpVer, phase, bad, rs>>
        \/ /\ e.a = "result"                                                       \* a bring-up stage ended at the host
           /\ e.exc = ""                                                           \* ... without an exception
           /\ (e.stage \in {"startup", "version"} => (e.version = ncpVer /\ e.tables = TablesFor(ncpVer) /\ phase = "native"))
